@@ -56,6 +56,17 @@ NONASCII_HOST = ["é", "ä", "ß", "İ", "Ａ", "ｅ", "℀", "／", "＠", "：
 TEXT = ["é", "e\u0301", "ü", "u\u0308", "日", "\U0001f600", "İ", "\u212b", "\u00c5", "A\u030a", "\u2126", "\u03a9", "\u212a", "\u1100\u1161", "\uac00", "\u1100\u1161\u11a8",
         "a\u0323\u0307", "a\u0307\u0323", "\u1e9b\u0323", "\u0958", "\u0915\u093c", "\u0344", "\u0340", "\u2000", "\ufb01", "\uff21", "\u00aa", "\u2460", "\u00df", "\u1e9e", "\u03c2",
         "\u0131", "\u01c5", "\u0301", "\u00ad", "\u200d", "\u0f73", "\U0001d15e", "\u2adc", "\U0002f800"]
+# characters that text functions take for the end of a line (str.splitlines, re `$`/`^` in MULTILINE mode, file iteration in universal
+# newline mode) or for white space (str.strip / str.split / `\s`) although they are neither CR nor LF nor anything urlsplit removes:
+# inside a path or a query they are data the caller asked for, and code that "cleans" a request line with such a function loses them
+LINE_BREAKS = ["\x0b", "\x0c", "\x1c", "\x1d", "\x1e", "\x85", "\u2028", "\u2029"]
+SPACES = ["\x1f", "\xa0", "\u1680", "\u2000", "\u2003", "\u200a", "\u202f", "\u205f", "\u3000", "\ufeff", "\u200b", "\u180e", "\x7f"]
+SEPARATORS = LINE_BREAKS + SPACES
+# texts that look like the beginning of a URL or like a piece of an authority: in a path or query they are ordinary data (a search for
+# a URL, a gateway or link checker that takes a URL as its input, a page that is named after one), and code that rewrites the caller's
+# URL by text substitution (scheme aliases, default-port removal, host lower-casing with str.replace / re.sub) changes them too
+SCHEME_WORDS = ["gemini", "titan", "Titan", "TITAN", "GEMINI", "http", "https", "gopher", "spartan", "file"]
+EMBED = [w + sep for w in SCHEME_WORDS for sep in ("://", ":", ":/")] + ["//", "://", ":1965", ":1965/", ":01965", ":443", "@", "localhost", "LOCALHOST", "titan:%2F%2F", "%2F%2F", "/./", "/../"]
 SCHEMES = ["gemini"] * 12 + ["GEMINI", "Gemini", "gEmInI", "http", "titan", "gemini+x", "gemin", "geminii", "", "1gemini", "gem ini", "gemini\t"]
 SEEDS = [
     "gemini://[::1]/x", "gemini://[::1]", "gemini://[::1]:1965/", "gemini://[::1]:70/a?b", "gemini://[FE80::1%25eth0]/", "gemini://[fe80::1%eth0]:1966/p",
@@ -84,8 +95,10 @@ def pchar(rng):
         return rng.choice(SUBDELIMS)
     if r < 0.89:
         return rng.choice(":@")
-    if r < 0.96:
+    if r < 0.95:
         return rng.choice(TEXT)
+    if r < 0.97:
+        return rng.choice(SEPARATORS)
     return rng.choice(ODD)
 
 
@@ -446,6 +459,21 @@ def wire_urls_fixed() -> list[str]:
             fixed.append(shape + ch * (room // w) + "a" * (room % w))
             fixed.append(shape + "a" * (room % w) + ch * (room // w + 1))
     fixed += ["gemini://localhost/" + "\U0001f40d" * 294 + "?q=1", "gemini://localhost/d?" + "\U00012000" * 320, "gemini://localhost/" + "\u65e5" * 340]
+    # every character that some text function takes for a line end or for white space, inside the path (with more path and a query
+    # after it), inside the query, and as the last character of the URL
+    for i, ch in enumerate(SEPARATORS):
+        fixed.append(f"gemini://localhost/docs/line{ch}separator/page.gmi?x=1{ch}y")
+        if i % 2:
+            fixed.append(f"GEMINI://LOCALHOST:1965/{ch}?{ch}")
+        else:
+            fixed.append(f"gemini://[::1]:1966/d/f.gmi{ch}")
+    # texts that look like the start of a URL / like a piece of an authority, as data in the path and in the query
+    for w in ("titan", "gemini", "TITAN", "http"):
+        for sep in ("://", ":"):
+            fixed.append(f"gemini://localhost/gateway/{w}{sep}other.example/page?url={w}{sep}u.example/notes.gmi")
+    fixed += ["gemini://localhost/titan://a", "gemini://localhost/search?titan://u/notes.gmi", "gemini://localhost//titan://a//b?//", "gemini://localhost:1965/a:1965/b:1965?c:1965",
+              "gemini://localhost/gemini://localhost/?gemini://localhost/", "GEMINI://LOCALHOST/LOCALHOST/GEMINI://LOCALHOST?LOCALHOST", "gemini://localhost/a/./b/../c?/./../",
+              "gemini://localhost/x?titan:%2F%2Fa&u=titan://b&v=titan://c", "gemini://localhost?titan://", "gemini://localhost/@localhost:1965/?@localhost:1965"]
     return fixed
 
 
@@ -470,6 +498,36 @@ def long_text_url(rng: random.Random) -> str:
     return shape + "".join(out)
 
 
+WORDS = ["docs", "search", "proxy", "q", "url", "page.gmi", "a", "x1", "~u", "notes", ""]
+
+
+def embedded_url(rng: random.Random) -> str:
+    """a URL whose path and query are made of plain words, of texts that look like pieces of a URL (scheme prefixes, `//`, port and host
+    texts - among them the URL's OWN scheme, host and port spelled again) and of characters some text function takes for a line end or
+    for white space; these stand at the beginning, in the middle and at the end of segments and of the query"""
+    scheme = rng.choice(["gemini", "gemini", "gemini", "Gemini", "GEMINI"])
+    host = rng.choice(WIRE_HOSTS)
+    port = rng.choice(["", "", "", ":1965", ":1966", ":70", ":01965"])
+    own = [scheme + "://", scheme + "://" + host + port + "/", scheme + ":", host, host.upper(), host.lower(), port or ":1965", "titan://" + host + port + "/"]
+    style = rng.choice(["embed", "embed", "break", "break", "both"])
+
+    def piece():
+        r = rng.random()
+        if r < 0.4:
+            return rng.choice(WORDS)
+        if style == "break" or (style == "both" and r < 0.7):
+            return rng.choice(LINE_BREAKS if rng.random() < 0.6 else SPACES)
+        return rng.choice(EMBED + own)
+
+    def text(k):
+        return "".join(piece() for _ in range(rng.randint(1, k)))
+
+    path = rng.choice(["", "/", "/", "/", "//"]) if rng.random() < 0.15 else "/" + "/".join(text(3) for _ in range(rng.randint(1, 3)))
+    r = rng.random()
+    query = "" if r < 0.3 else "?" + rng.choice(["", "", "url=", "q=", "a=1&b="]) + text(4) + rng.choice(["", "", "&z", "=", "?"])
+    return scheme + "://" + host + port + path + query
+
+
 def wire_cases(fam, rng: random.Random, n: int, extra=()):
     """URLs for the families that put a request on a real wire: this shard's part of the fixed list, then random ones
     (every spelling of the scheme the library accepts, every kind of host, any port / path / query spelling)"""
@@ -478,8 +536,12 @@ def wire_cases(fam, rng: random.Random, n: int, extra=()):
         cnt += 1
         yield {"u": u}
     for _ in range(max(0, n - cnt)):
-        if rng.random() < 0.1:
+        r = rng.random()
+        if r < 0.1:
             yield {"u": long_text_url(rng)}
+            continue
+        if r < 0.4:
+            yield {"u": embedded_url(rng)}
             continue
         host = rng.choice(WIRE_HOSTS)
         u = rng.choice(["gemini", "gemini", "Gemini", "GEMINI", "gEMINI"]) + "://" + host + gen_port(rng) + gen_path(rng) + gen_query(rng)
@@ -488,10 +550,25 @@ def wire_cases(fam, rng: random.Random, n: int, extra=()):
         yield {"u": u}
 
 
+def text_kind(u: str) -> str:
+    """distribution label: what the part of the URL after the authority carries besides ordinary text"""
+    tail = u.split("://", 1)[-1]
+    cut = min([i for i in (tail.find("/"), tail.find("?")) if i >= 0], default=len(tail))
+    tail = tail[cut:]
+    out = ""
+    if any(ch in tail for ch in LINE_BREAKS):
+        out += ":line-break-like char"
+    elif any(ch in tail for ch in SPACES):
+        out += ":space-like char"
+    if "://" in tail or any(w + ":" in tail.lower() for w in ("gemini", "titan", "http")):
+        out += ":scheme-like text"
+    return out
+
+
 class Wire(Family):
     realtime = True     # runs on the wall clock (sockets, threads): a failure is re-run once before it counts (core.run_family)
     name = "wire"
-    quick_n = 300
+    quick_n = 380
     thorough_n = 4000
     parallel = False
 
@@ -584,7 +661,7 @@ class Wire(Family):
         size = "" if nb <= 1000 else (":longline" if nb <= 1022 else ":over-the-limit") + (":4-byte text" if any(ord(ch) > 0xFFFF for ch in u) else ":2/3-byte text" if not u.isascii() else "")
         if c[0] != "resp":
             return c[0] + ":" + str(c[1]) + size
-        return f"resp{c[1]}:" + classify_host(u, None) + size
+        return f"resp{c[1]}:" + classify_host(u, None) + size + text_kind(u)
 
 
 class Purity(Family):
@@ -708,7 +785,7 @@ class Cmdline(Family):
     (distribution only: a command line may be more generous than the library)."""
     realtime = True     # runs on the wall clock (sockets, threads): a failure is re-run once before it counts (core.run_family)
     name = "cmdline"
-    quick_n = 320
+    quick_n = 400
     thorough_n = 4000
 
     def setup(self):
@@ -848,7 +925,7 @@ class Cmdline(Family):
             return f"{case['cmd']}: rejected by the library ({obs['caller'][1]}) -> {c[0]}{' (CONNECTED)' if obs['asked'] else ''}"
         if c[0] != "resp":
             return f"{case['cmd']}: accepted, {sp} -> {c[0]}:{c[1]}"
-        return f"{case['cmd']}: accepted, {sp}, {classify_host(case['u'], None)}{' non-ascii text' if any(ord(ch) > 127 for ch in case['u'].split('://', 1)[-1].partition('/')[2]) else ''} -> resp{c[1]}"
+        return f"{case['cmd']}: accepted, {sp}, {classify_host(case['u'], None)}{' non-ascii text' if any(ord(ch) > 127 for ch in case['u'].split('://', 1)[-1].partition('/')[2]) else ''}{text_kind(case['u'])} -> resp{c[1]}"
 
 
 FAMILIES = [Parse(), Wire(), Purity(), Cmdline()]
